@@ -226,3 +226,32 @@ Definition decode_pkts (data : list Z) : res (list pkt) :=
   else
     let '(h, buf) := next data HeadLength in
     bind (parse_header h) (fun st => dec_loop (S (length data)) buf (fst st) (snd st) []).
+
+(* ---------------------------------------------------------------- TCP framing
+   tcpPlayerConn.GetNextMessage (pomelonet/server/acceptor/tcp_acceptor.go) over the bytes
+   the peer sends before closing: ReadAll(LimitReader(conn, 4)) yields fewer than 4 bytes
+   only at end of stream, so the result depends on the byte stream alone, not on how the
+   peer's writes were cut into segments. *)
+Inductive fend :=
+| FClosed                (* constants.ErrConnectionClosed: stream ended at a packet boundary *)
+| FShortBody             (* constants.ErrReceivedMsgSmallerThanExpected *)
+| FBad (e : err)         (* ParseHeader's error (a 1-3 byte header is ErrInvalidPomeloHeader) *)
+| FFuel.                 (* model artefact, proved unreachable *)
+
+Fixpoint frames (fuel : nat) (s : list Z) : list (list Z) * fend :=
+  match fuel with
+  | O => ([], FFuel)
+  | S f =>
+      let '(h, rest) := next s HeadLength in
+      if len h =? 0 then ([], FClosed) else
+      match parse_header h with
+      | Ok (size, _) =>
+          let '(body, rest') := next rest size in
+          if len body <? size then ([], FShortBody)
+          else let '(ms, e) := frames f rest' in ((h ++ body) :: ms, e)
+      | Err e => ([], FBad e)
+      | Panic => ([], FFuel)
+      end
+  end.
+
+Definition read_frames (s : list Z) : list (list Z) * fend := frames (S (length s)) s.
